@@ -58,6 +58,7 @@ theorem aw_plain (c : Cfg) (l : Label) (hl : match l with | .read | .done _ _ | 
   | offer r => cases hl
   | wake => cases hl
   | cancel j => cases hl
+  | promote j => cases hl
   | crash => cases hl
   | read =>
     simp only [fire]; split
@@ -79,6 +80,15 @@ theorem aw_plain (c : Cfg) (l : Label) (hl : match l with | .read | .done _ _ | 
     simp only [fire]; split
     · next m pc heq => rw [doTick_accepted, doTick_waiting _ _ _ heq]; simp [waitingOf, heq]
     · rfl
+
+theorem cons_eraseIdx_perm {α : Type} : ∀ {l : List α} {j : Nat} {r : α}, l[j]? = some r → (r :: l.eraseIdx j).Perm l
+  | [], _, _, h => by simp at h
+  | a :: t, 0, r, h => by
+    simp at h; subst h; simp
+  | a :: t, j + 1, r, h => by
+    have ih := cons_eraseIdx_perm (l := t) (j := j) (r := r) (by simpa using h)
+    simp only [List.eraseIdx_cons_succ]
+    exact (List.Perm.swap a r _).trans (List.Perm.cons a ih)
 
 /-- duplicate-free, and everything comes from the offers seen so far -/
 structure DInv (seen : List Req) (c : Cfg) : Prop where
@@ -118,6 +128,20 @@ theorem dinv_step {seen : List Req} {c : Cfg} (h : DInv seen c) (l : Label) :
       obtain ⟨h1, h2⟩ := dinv_of_perm_sub (seen := seen) (l := aw c) h.nodup h.sub (l' := c.accepted ++ m.waiting.eraseIdx j)
         ⟨_, List.Perm.refl _, by rw [e0]; exact List.Sublist.append_left (List.eraseIdx_sublist _ _) _⟩
       exact ⟨by rw [e]; exact h1, by rw [e]; exact h2⟩
+    · exact h
+  | promote j =>
+    dsimp only
+    simp only [fire]; split
+    · next m heq =>
+      have e0 : aw c = c.accepted ++ m.waiting := by simp [aw, waitingOf, heq]
+      unfold doPromote
+      split
+      · exact h
+      · next r hr =>
+        have e : aw { c with ph := .live { m with waiting := r :: m.waiting.eraseIdx j } .idle } = c.accepted ++ (r :: m.waiting.eraseIdx j) := rfl
+        obtain ⟨h1, h2⟩ := dinv_of_perm_sub (seen := seen) (l := aw c) h.nodup h.sub (l' := c.accepted ++ (r :: m.waiting.eraseIdx j))
+          ⟨_, by rw [e0]; exact List.Perm.append_left _ (cons_eraseIdx_perm hr), List.Sublist.refl _⟩
+        exact ⟨by rw [e]; exact h1, by rw [e]; exact h2⟩
     · exact h
   | wake =>
     dsimp only
@@ -194,6 +218,7 @@ theorem dinv_foldl : ∀ (ls : List Label) (seen : List Req) (c : Cfg), DInv see
     | crash => exact dinv_foldl ls seen _ step hn hs
     | wake => exact dinv_foldl ls seen _ step hn hs
     | cancel j => exact dinv_foldl ls seen _ step hn hs
+    | promote j => exact dinv_foldl ls seen _ step hn hs
 
 theorem accepted_nodup_of_distinct_offers (k : Conf) (ls : List Label) (h : (offeredOf ls).Nodup) :
     (run k ls).accepted.Nodup := by
